@@ -186,7 +186,11 @@ def main():
         }],
         "checks": checks,
         "not_applicable": [{"property_id": pid, "reason": NOT_YET} for pid in ids if pid not in CLAIMED],
-        "notes": "fix: commits in /repo repair seven genuine defects (KNOWN_FINDINGS.txt, DESIGN 2); the model is of the repaired tree.",
+        "notes": "fix: commits in /repo repair seven genuine defects (KNOWN_FINDINGS.txt, DESIGN 2); the model is of the repaired tree. "
+                 "Besides theorems, correspondence and direct oracle every check scans /repo/src for `unsafe` and for state kept across calls "
+                 "(DESIGN 6) and reports a harness that no longer compiles against the public API as a broken correspondence. "
+                 "Tools that are not registered commands (tools/): mutation analysis, coverage and self-test work on scratch copies only; seeded-change "
+                 "validation applies a change to /repo and undoes it straight afterwards.",
     }
     with open(os.path.join(verif, "MANIFEST.json"), "w") as f:
         json.dump(manifest, f, indent=1)
